@@ -1,12 +1,17 @@
 package checks
 
 import (
+	"context"
 	"fmt"
 	"reflect"
 	"sort"
 	"strings"
 
 	"git.defalsify.org/vise.git/cache"
+	"git.defalsify.org/vise.git/db"
+	memdb "git.defalsify.org/vise.git/db/mem"
+	"git.defalsify.org/vise.git/persist"
+	"git.defalsify.org/vise.git/state"
 
 	"verif/harness/vk"
 )
@@ -172,6 +177,15 @@ func runC09Seq(capacity uint32, ops []c09op, c *vk.Ctx) (string, string) {
 				ks := ca.Keys(ca.Levels() - 1)
 				sort.Strings(ks)
 				rval = strings.Join(ks, ",")
+			case "flushsave":
+				// the cache is held by a persister created WithFlush: after Save it is empty, and still the same cache
+				rerr = persist.NewPersister(c09Store()).WithFlush().WithContent(state.NewState(0), ca).Save("s")
+			case "saveload":
+				// save and load through one persister: nothing changes
+				pe := persist.NewPersister(c09Store()).WithContent(state.NewState(0), ca)
+				if rerr = pe.Save("s"); rerr == nil {
+					rerr = pe.Load("s")
+				}
 			}
 		})
 		c.Count("ops_"+op.Op, 1)
@@ -268,6 +282,23 @@ func runC09Seq(capacity uint32, ops []c09op, c *vk.Ctx) (string, string) {
 				}
 			}
 			ref.frames = ref.frames[:1]
+		case "flushsave":
+			if rerr != nil {
+				return "flushsave:fails", where + ": " + rerr.Error()
+			}
+			ref.frames = []map[string]string{{}}
+			ref.limits = map[string]uint16{}
+			ref.last = ""
+			if l := ca.LastValue; l != "" {
+				return "flushsave:last-value-kept", where + ": the flushed cache still has a last value"
+			}
+		case "saveload":
+			if rerr != nil {
+				return "saveload:fails", where + ": " + rerr.Error()
+			}
+			if !reflect.DeepEqual(before, snapCache(ca)) {
+				return "saveload:changed", where + ": saving and loading through one persister changed the cache"
+			}
 		case "last":
 			if rval != ref.last {
 				return "last:wrong-value", fmt.Sprintf("%s: got len %d want len %d", where, len(rval), len(ref.last))
@@ -340,6 +371,12 @@ func runC09Seq(capacity uint32, ops []c09op, c *vk.Ctx) (string, string) {
 		}
 	}
 	return "", ""
+}
+
+func c09Store() db.Db {
+	m := memdb.NewMemDb()
+	m.Connect(context.Background(), "")
+	return m
 }
 
 var c09Keys = []string{"a", "b", "c", "dd", "e_e"}
@@ -426,10 +463,14 @@ func genC09Seq(r *vk.RNG) (uint32, []c09op) {
 			ops = append(ops, c09op{Op: "last"})
 		case x < 94:
 			ops = append(ops, c09op{Op: "reserved", Key: k})
-		case x < 97:
+		case x < 96:
 			ops = append(ops, c09op{Op: "levels"})
-		default:
+		case x < 98:
 			ops = append(ops, c09op{Op: "keys"})
+		case x < 99:
+			ops = append(ops, c09op{Op: "flushsave"})
+		default:
+			ops = append(ops, c09op{Op: "saveload"})
 		}
 	}
 	return capacity, ops
@@ -466,7 +507,7 @@ func C09() *vk.Check {
 	return &vk.Check{
 		ID:    "C09",
 		Level: "exploration",
-		Rule: "lock-step of cache.Cache against a reference cache (list of maps + limits + capacity). Cases: (1) every operation sequence of length<=5 (quick) / <=6 (thorough) over a 9-operation alphabet, for capacity 0 and capacity 10, enumerated exhaustively (distinct by construction); " +
+		Rule: "lock-step of cache.Cache against a reference cache (list of maps + limits + capacity). Cases: (1) every operation sequence of length<=5 (quick) / <=6 (thorough) over a 9-operation alphabet, for capacity 0 and capacity 10, enumerated exhaustively (distinct by construction); (random sequences also hand the cache to a persister: a flushing Save must leave it empty with its capacity, a Save/Load round trip through one persister must change nothing); " +
 			"(2) PRNG sequences of 3..60 ops over Add/Update/Get/Push/Pop/Reset/Last/ReservedSize/Levels/Keys, 3-5 keys, lengths in BYTES {0,1,limit-1,limit,limit+1,255,256,65535..65537,65536+limit,70000,131072+limit,random}, a third of the values made of multi-byte UTF-8 characters, limits 0..65535, capacities {0,1,small,medium,~64k..140k}. " +
 			"distinct = hash of (capacity, full op list); non-trivial = at least two mutating ops (add/update/pop/reset).",
 		Assumptions: []string{
